@@ -10,6 +10,8 @@
 #include <dirent.h>
 #include <errno.h>
 #include <string>
+#include <fcntl.h>
+#include <sys/mman.h>
 #include <sys/stat.h>
 #include <unistd.h>
 #include <vector>
@@ -39,6 +41,7 @@ enum
     K_CLOSE,
     K_SHORT,
     K_FAIL,
+    K_BIGACQ,  // a tiff / tiff-json acquisition of a few ~1 GiB frames (sparse): file offsets beyond 4 GiB
     K_COUNT
 };
 
@@ -46,7 +49,7 @@ const VhKindSpec kKinds[K_COUNT] = {
     { "ACQ", 6, 255, 65535, 65535, 65535 },  { "OPEN", 2, 255, 0, 0, 0 },          { "SET", 3, 255, 65535, 65535, 65535 },
     { "START", 3, 0, 0, 0, 65535 },          { "FRAME", 8, 255, 65535, 65535, 65535 }, { "APPEND", 3, 0, 0, 0, 65535 },
     { "STOP", 3, 0, 0, 0, 65535 },           { "CLOSE", 2, 0, 0, 0, 0 },           { "SHORT", 2, 255, 65535, 0, 0 },
-    { "FAIL", 3, 255, 255, 1, 0 },
+    { "FAIL", 3, 255, 255, 1, 0 },           { "BIGACQ", 1, 255, 65535, 0, 0 },
 };
 
 enum
@@ -80,6 +83,7 @@ enum
     CL_RAW_CHECKED,
     CL_TIFF_CHECKED,
     CL_RESTART_WITHOUT_SET,
+    CL_BEYOND_4GIB,
 };
 
 const VhSpec kSpec = {
@@ -92,7 +96,7 @@ const VhSpec kSpec = {
       "zero_length_write", "multi_packet", "file_uri", "absolute_path", "metadata", "empty_metadata_after_nonempty", "set_rejected",
       "fault_fired", "fault_open", "fault_flock", "fault_pwrite", "fault_persistent", "device_used_after_fault", "failed_append_reported",
       "close_while_running", "close_without_start", "start_stop_without_frames", "f32_frames", "odd_image_size", "raw_file_compared",
-      "tiff_file_read_back", "restart_without_set", nullptr },
+      "tiff_file_read_back", "restart_without_set", "file_offsets_beyond_4GiB", nullptr },
     { "C14 non-trivial: a raw file was compared byte for byte AND (>=2 acquisitions on that device, or a short write inside a multi-frame packet)",
       "C15 non-trivial: a TIFF file was read back AND (N>=2 frames in >=2 packets, or >=2 start/stop cycles on one device, or tiff-json)",
       "C16 non-trivial: an injected fault fired and the device was used again afterwards, or close while running / without start with the "
@@ -102,6 +106,8 @@ const VhSpec kSpec = {
 
 struct FrameRec
 {
+    bool big = false;               // ~1 GiB frame kept outside acq.bytes: only its first/last 4 KiB are compared
+    std::vector<uint8_t> head4k, tail4k;
     uint32_t w, h;
     SampleType type;
     uint64_t frame_id, hw_id, ts_hw, ts_rt;
@@ -140,6 +146,7 @@ struct Ctx
     bool fault_seen = false;   // a fault fired at some point on this device
     bool short_on = false;
     bool restart_without_set = false;
+    std::vector<std::pair<void*, size_t>> big_maps;
 };
 
 Ctx* g = nullptr;
@@ -452,7 +459,16 @@ add_frame(Ctx& x, unsigned tsel, uint16_t shape_sel, uint16_t ids_sel)
     uint8_t* px = x.pending.data() + off + sizeof(VideoFrame);
     for (size_t i = 0; i < img; ++i)
         px[i] = (uint8_t)(vh_mix64(s + i) >> 13);
-    FrameRec r = { w, h, ty, f->frame_id, f->hardware_frame_id, f->timestamps.hardware, f->timestamps.acq_thread, off, nb };
+    FrameRec r;
+    r.w = w;
+    r.h = h;
+    r.type = ty;
+    r.frame_id = f->frame_id;
+    r.hw_id = f->hardware_frame_id;
+    r.ts_hw = f->timestamps.hardware;
+    r.ts_rt = f->timestamps.acq_thread;
+    r.off = off;
+    r.nbytes = nb;
     x.pending_frames.push_back(r);
     if (ty == SampleType_f32)
         x.c.cls(CL_F32);
@@ -612,11 +628,20 @@ void
 check_tiff(Ctx& x)
 {
     std::string file = x.kind == 1 ? x.acq.path : x.acq.path + "/data.tif";
-    std::vector<uint8_t> f;
-    if (!read_file(file, f)) {
+    tr::Src f;
+    f.fd = ::open(file.c_str(), O_RDONLY);
+    if (f.fd < 0) {
         x.c.fail("C15", "file-missing", kKindName[x.kind], "%s does not exist after the acquisition", file.c_str());
         return;
     }
+    struct stat stt;
+    fstat(f.fd, &stt);
+    f.n = (uint64_t)stt.st_size;
+    struct Closer
+    {
+        int fd;
+        ~Closer() { ::close(fd); }
+    } closer{ f.fd };
     x.c.cls(CL_TIFF_CHECKED);
     size_t N = x.acq.frames.size();
     if ((N >= 2 && x.acq.packets >= 2) || x.acq_on_device >= 1 || x.kind == 2)
@@ -653,13 +678,28 @@ check_tiff(Ctx& x)
             x.c.fail("C15", "strip", "short", "directory %zu: strip has %llu bytes, the image needs %zu", i, (unsigned long long)d.strip_len, img);
             return;
         }
-        const uint8_t* want = x.acq.bytes.data() + fr.off + sizeof(VideoFrame);
-        if (memcmp(&f[d.strip_off], want, img) != 0) {
-            size_t k = 0;
-            while (f[d.strip_off + k] == want[k])
-                ++k;
-            x.c.fail("C15", "pixels", "differ", "directory %zu: strip differs from the frame's pixel bytes at byte %zu", i, k);
-            return;
+        if (fr.big) {
+            std::vector<uint8_t> got(4096);
+            if (!f.read(d.strip_off, got.data(), 4096) || memcmp(got.data(), fr.head4k.data(), 4096) != 0) {
+                x.c.fail("C15", "pixels", "differ-big-head", "directory %zu: the first 4 KiB of the strip (offset %llu) differ from the frame's pixels", i,
+                         (unsigned long long)d.strip_off);
+                return;
+            }
+            if (!f.read(d.strip_off + img - 4096, got.data(), 4096) || memcmp(got.data(), fr.tail4k.data(), 4096) != 0) {
+                x.c.fail("C15", "pixels", "differ-big-tail", "directory %zu: the last 4 KiB of the strip differ from the frame's pixels", i);
+                return;
+            }
+        } else {
+            const uint8_t* want = x.acq.bytes.data() + fr.off + sizeof(VideoFrame);
+            std::vector<uint8_t> got(img);
+            f.read(d.strip_off, got.data(), img);
+            if (memcmp(got.data(), want, img) != 0) {
+                size_t k = 0;
+                while (got[k] == want[k])
+                    ++k;
+                x.c.fail("C15", "pixels", "differ", "directory %zu: strip differs from the frame's pixel bytes at byte %zu", i, k);
+                return;
+            }
         }
         check_description(x, d, fr, i, x.acq.meta_set);
     }
@@ -764,6 +804,104 @@ do_close(Ctx& x)
     x.pending_frames.clear();
     x.acq = Acq();
     x.configured = false;
+}
+
+// A tiff / tiff-json acquisition of nfr frames of ~1 GiB each.  The frames live in untouched
+// anonymous mappings (only the header and the first/last 4 KiB of pixels are written), the
+// descriptor layer writes them sparsely, and the reader uses pread: a case costs milliseconds but
+// the file's structures lie beyond 4 GiB.
+void
+do_big_acq(Ctx& x, const VhTok& t)
+{
+    if (x.dev && x.acq.started)
+        do_stop(x);
+    if (x.c.ended)
+        return;
+    if (x.dev && x.kind != 1 && x.kind != 2)
+        do_close(x);
+    if (x.c.ended)
+        return;
+    if (!x.dev)
+        do_open(x, 1 + (t.a & 1));
+    if (x.c.ended || !x.dev)
+        return;
+    do_set(x, (t.a >> 1) & 3, (uint16_t)(2 + 8 * (t.b % 100)), 9);
+    if (x.c.ended || !x.configured)
+        return;
+    do_start(x);
+    if (x.c.ended || !x.acq.started)
+        return;
+    int nfr = 4 + (t.a >> 3) % 3;
+    vfd::set_sparse(true);
+    vfd::set_short(0, 0, 1);
+    for (int i = 0; i < nfr && !x.c.ended && x.acq.started; ++i) {
+        uint32_t w = 32768, h = 28000 + (uint32_t)vh_mix64(t.b * 31u + i) % 12000; // 0.92 .. 1.31 GiB, u8
+        size_t img = (size_t)w * h;
+        size_t nb = 8 * ((sizeof(VideoFrame) + img + 7) / 8);
+        void* m = mmap(nullptr, nb, PROT_READ | PROT_WRITE, MAP_PRIVATE | MAP_ANONYMOUS | MAP_NORESERVE, -1, 0);
+        if (m == MAP_FAILED)
+            break;
+        x.big_maps.push_back({ m, nb });
+        VideoFrame* f = (VideoFrame*)m;
+        f->bytes_of_frame = nb;
+        f->shape.dims.channels = 1;
+        f->shape.dims.width = w;
+        f->shape.dims.height = h;
+        f->shape.dims.planes = 1;
+        f->shape.strides.channels = 1;
+        f->shape.strides.width = 1;
+        f->shape.strides.height = w;
+        f->shape.strides.planes = (int64_t)w * h;
+        f->shape.type = SampleType_u8;
+        uint64_t s = vh_mix64(0xb16f0000u + t.b + (uint64_t)i * 65537);
+        f->frame_id = x.next_frame_id++;
+        f->hardware_frame_id = f->frame_id + 1;
+        f->timestamps.hardware = s >> 9;
+        f->timestamps.acq_thread = s >> 5;
+        FrameRec r;
+        r.big = true;
+        r.w = w;
+        r.h = h;
+        r.type = SampleType_u8;
+        r.frame_id = f->frame_id;
+        r.hw_id = f->hardware_frame_id;
+        r.ts_hw = f->timestamps.hardware;
+        r.ts_rt = f->timestamps.acq_thread;
+        r.off = 0;
+        r.nbytes = nb;
+        r.head4k.resize(4096);
+        r.tail4k.resize(4096);
+        for (size_t j = 0; j < 4096; ++j) {
+            r.head4k[j] = (uint8_t)(vh_mix64(s + j) >> 11);
+            r.tail4k[j] = (uint8_t)(vh_mix64(s + 77777 + j) >> 13);
+        }
+        memcpy(f->data, r.head4k.data(), 4096);
+        memcpy(f->data + img - 4096, r.tail4k.data(), 4096);
+        x.c.trace("FRAME %ux%u u8 id=%llu (%zu bytes, sparse)", w, h, (unsigned long long)f->frame_id, nb);
+        x.c.trace("APPEND packet of 1 frame(s), %zu bytes", nb);
+        op_begin();
+        vfd::set_op_call_bound(4000);
+        DeviceStatusCode rr = storage_append(x.dev, f, (const VideoFrame*)((const uint8_t*)f + nb));
+        note_faults(x);
+        if (check_vfd(x, "append"))
+            break;
+        if (rr != Device_Ok) {
+            x.acq.all_ok = false;
+            x.acq.started = false;
+            x.configured = false;
+            break;
+        }
+        x.acq.frames.push_back(r);
+        x.acq.packets++;
+        if (x.acq.frames.size() >= 4)
+            x.c.cls(CL_BEYOND_4GIB);
+    }
+    if (!x.c.ended && x.acq.started)
+        do_stop(x);
+    vfd::set_sparse(false);
+    for (auto& mp : x.big_maps)
+        munmap(mp.first, mp.second);
+    x.big_maps.clear();
 }
 
 void
@@ -935,6 +1073,9 @@ vh_run(const VhTok* tape, size_t n, VhReport* rep)
                 x.c.trace("SHORT max_chunk=%zu zero_every=%d zero_run=%d", mc, zero_every, zero_run);
                 break;
             }
+            case K_BIGACQ:
+                do_big_acq(x, t);
+                break;
             case K_FAIL: {
                 vfd::Fault f;
                 static const vfd::Call calls[4] = { vfd::C_PWRITE, vfd::C_OPEN, vfd::C_FLOCK, vfd::C_PWRITE };
